@@ -35,6 +35,7 @@ CONSTANTS KF_SharedLockRefCountRace,
           Sizes,       \* numbers of concurrent requests, e.g. {2, 3}
           KvPool,      \* requests of family "kv"  (sequence of request names)
           TokPool,     \* requests of family "tok"
+          MixPool,     \* requests of family "mix" (transactions with a token part AND a key part)
           Extra,       \* additional hand-picked scenarios (set of sequences of request names)
           GFirst,      \* lock keys of genesis outputs sort before those of other transactions (raw txid order)
           SelDet,      \* selectors visit candidate outputs in one fixed order (generation) / any order (MC)
@@ -53,6 +54,7 @@ NoKV == [k \in Keys |-> NoRd]
 Out(to, amt) == [to |-> to, amt |-> amt]
 Tok(ins, outs) == [ins |-> ins, outs |-> outs, reads |-> NoKV, writes |-> NoKV]
 KV(r, w) == [ins |-> {}, outs |-> <<>>, reads |-> r @@ NoKV, writes |-> w @@ NoKV]
+Mix(ins, outs, r, w) == [ins |-> ins, outs |-> outs, reads |-> r @@ NoKV, writes |-> w @@ NoKV]
 TX == [
   t0  |-> Tok({<<"g", 1>>}, <<Out("a", 2), Out("a", 4)>>),                 \* prelude of family tok: a owns g.0, t0.0, t0.1
   t1  |-> Tok({<<"g", 0>>}, <<Out("b", 4), Out("a", 6)>>),
@@ -69,7 +71,15 @@ TX == [
   p7  |-> KV("k2" :> None, "k2" :> "w1"),                              \* independent key
   p8  |-> KV(("k1" :> "p1") @@ ("k2" :> None), "k2" :> "w2"),          \* shares k1, writes k2
   p9  |-> KV(("k1" :> "p1") @@ ("k2" :> None), "k1" :> "v9"),          \* writes k1, shares k2 (write skew with p8)
-  p10 |-> KV(("k1" :> "p1") @@ ("k2" :> None) @@ ("k3" :> None), "k3" :> "x1")   \* three keys: S, S, X
+  p10 |-> KV(("k1" :> "p1") @@ ("k2" :> None) @@ ("k3" :> None), "k3" :> "x1"),  \* three keys: S, S, X
+  (* family mix (prelude p1): MIXED transactions - a token part and a key part. The version check of the key part
+     (xmodel.DoTx in doTxInternal) and the token part (inputs unspent) are two refusal stages of one submission; a
+     submission refused at either stage leaves nothing behind, in particular not in the balances the node answers. *)
+  m1  |-> Mix({<<"g", 0>>}, <<Out("b", 4), Out("a", 6)>>, "k1" :> "p1", "k1" :> "u1"),      \* a pays b and writes k1
+  m2  |-> Mix({<<"g", 1>>}, <<Out("a", 5), Out("c", 1)>>, "k1" :> "p1", "k1" :> "u2"),      \* b pays a and c, writes k1: conflict with m1 on the KEY only
+  m3  |-> Mix({<<"g", 0>>}, <<Out("c", 10)>>, "k2" :> None, "k2" :> "u3"),                  \* conflict with m1 on the OUTPUT only
+  m4  |-> Mix({<<"g", 0>>}, <<Out("c", 3), Out("a", 7)>>, "k1" :> "p1", "k1" :> "u4"),      \* conflict with m1 on BOTH
+  m5  |-> Mix({<<"g", 2>>}, <<Out("c", 3)>>, "k1" :> "p1", NoKV)                           \* the account x pays c, only READS k1: loses to a writer that went first
 ]
 GenesisOuts == <<Out("a", 10), Out("b", 6), Out("x", 3)>>
 GenesisTotal == 19
@@ -91,7 +101,7 @@ WalkReq(b) == [ty |-> "walk", t |-> "-", a |-> "-", need |-> 0, lk |-> FALSE, b 
    brings p7, a CONTRACT INVOCATION the node has (usually) not seen; tok: it brings ta, the spend of an
    ACCOUNT-OWNED output: play / walk verify them under the exclusive lock through the real contract and ACL managers
    (which read the confirmed tip) *)
-BlockOf == [kv |-> <<"p1", "p7">>, tok |-> <<"t3", "ta">>]
+BlockOf == [kv |-> <<"p1", "p7">>, tok |-> <<"t3", "ta">>, mix |-> <<>>]
 ReqDef == [t \in DOMAIN TX |-> DoReq(t)] @@
   [ sa10 |-> SelReq("a", 10, TRUE),        \* a owns 10 + 2 + 4
     sa4  |-> SelReq("a", 4, TRUE),
@@ -101,28 +111,35 @@ ReqDef == [t \in DOMAIN TX |-> DoReq(t)] @@
     walk3 |-> WalkReq(BlockOf.tok),        \* State.Walk to that block
     playk |-> PlayReq(BlockOf.kv),         \* peer block 2 = [award, p1, p7]
     walkk |-> WalkReq(BlockOf.kv) ]
-Fam == [kv |-> [pre |-> <<"p1">>, blk |-> BlockOf.kv], tok |-> [pre |-> <<"t0">>, blk |-> BlockOf.tok]]
+Fam == [kv |-> [pre |-> <<"p1">>, blk |-> BlockOf.kv], tok |-> [pre |-> <<"t0">>, blk |-> BlockOf.tok],
+        mix |-> [pre |-> <<"p1">>, blk |-> BlockOf.mix]]
 KvPoolFull  == <<"p2", "p3", "p5", "p6", "p7", "p8", "p9", "p10", "playk", "walkk">>
 TokPoolFull == <<"t1", "t2", "t3", "t4", "t8", "ta", "sa10", "sa4", "sa16", "sn4", "play3", "walk3">>
+(* family mix: the mixed transactions beside a pure writer of k1 and a pure spender of g.0 (no play, no walk) *)
+MixPoolFull  == <<"m1", "m2", "m3", "m4", "m5", "p2", "t3">>
+MixPoolSmall == <<"m1", "m2", "m3", "m4", "m5">>
+MixPool4     == <<>>
+MixNames == {"m1", "m2", "m3", "m4", "m5"}
 KvPoolSmall  == <<"p2", "p3", "p5", "p6", "p8", "p9", "playk", "walkk">>
 TokPoolSmall == <<"t1", "t2", "t3", "t8", "sa10", "sa4", "play3", "walk3">>
 (* scenarios of four requests: without walks (hand-picked ones with a walk: FourProc) *)
 KvPool4  == <<"p2", "p3", "p5", "p6", "p8", "p9">>
 TokPool4 == <<"t1", "t2", "t3", "t8", "sa10", "sa4", "play3">>
 KvNames == Range(KvPoolFull)
-FamOf(scn) == IF scn[1] \in KvNames THEN "kv" ELSE "tok"
+FamOf(scn) == IF \E i \in DOMAIN scn : scn[i] \in MixNames THEN "mix" ELSE IF scn[1] \in KvNames THEN "kv" ELSE "tok"
 (* all multisets (non-decreasing index sequences) of n requests of one pool, at most one play or walk *)
 Multisets(pool, n) ==
   {[i \in 1..n |-> pool[f[i]]] : f \in {g \in [1..n -> 1..Len(pool)] : \A i \in 1..(n - 1) : g[i] <= g[i + 1]}}
 Excl(r) == r.ty \in {"play", "walk"}
 OnePlay(scn) == Cardinality({i \in DOMAIN scn : Excl(ReqDef[scn[i]])}) <= 1
-Scenarios == {s \in UNION {Multisets(KvPool, n) \cup Multisets(TokPool, n) : n \in Sizes} : OnePlay(s)} \cup Extra
+Scenarios == {s \in UNION {Multisets(KvPool, n) \cup Multisets(TokPool, n) \cup Multisets(MixPool, n) : n \in Sizes} : OnePlay(s)} \cup Extra
 NoExtra == {}
 Race3 == {<<"p2", "p5", "p6">>}
 Race4 == {<<"p2", "p3", "p5", "p6">>}
 Three == {<<"p2", "p5", "p6">>, <<"p2", "p8", "p9">>, <<"p3", "p5", "p10">>, <<"t1", "t3", "t8">>, <<"t1", "t2", "play3">>, <<"t3", "t8", "sa10">>, <<"sa10", "sa4", "sa16">>,
           <<"p2", "p8", "p10">>,          \* p8 is refused at its second key while it shares the first with p10: a partial lock is handed back
-          <<"t1", "t4", "walk3">>, <<"p5", "p8", "walkk">>}
+          <<"t1", "t4", "walk3">>, <<"p5", "p8", "walkk">>,
+          <<"m1", "m2", "m5">>}           \* two mixed writers and a mixed reader of k1, token parts independent: the losers are refused at the key stage
 FourProc == {<<"p2", "p3", "p5", "p6">>, <<"p2", "p5", "p8", "p9">>, <<"p5", "p6", "p8", "p10">>, <<"p2", "p7", "p8", "p9">>,
              <<"t1", "t2", "t3", "sa10">>, <<"t1", "t8", "sa4", "play3">>, <<"t3", "sa10", "sa16", "play3">>,
              <<"t1", "t3", "t4", "t8">>, <<"sa10", "sa4", "sa16", "sn4">>,
@@ -134,12 +151,16 @@ FourProcTwoExcl == FourProc \cup TwoExcl
 (* ---- lock keys: ExtractLockKeys ------------------------------------------------------------------ *)
 (* inputs and own outputs exclusive; keys only read shared; keys written exclusive; sorted by the raw  *)
 (* key string (the concretiser signs until the raw txids are ordered like the ranks below)             *)
-TxRank == [g |-> IF GFirst THEN 0 ELSE 90, t0 |-> 1, t1 |-> 2, t2 |-> 3, t3 |-> 4, t4 |-> 5, t8 |-> 6, ta |-> 7]
+TxRank == [g |-> IF GFirst THEN 0 ELSE 90, t0 |-> 1, t1 |-> 2, t2 |-> 3, t3 |-> 4, t4 |-> 5, t8 |-> 6, ta |-> 7,
+           m1 |-> 8, m2 |-> 9, m3 |-> 10, m4 |-> 11, m5 |-> 12]
+(* the raw key of a contract key is "<bucket>/<key>": it sorts between the genesis outputs and the outputs of the
+   other transactions (GFirst: genesis outputs, keys, other outputs; otherwise other outputs, keys, genesis outputs) *)
+KvRank == IF GFirst THEN 4 ELSE 500
 KeyIdx == [k1 |-> 1, k2 |-> 2, k3 |-> 3]
 UKey(u) == [k |-> u[1] \o "_" \o ToString(u[2]), m |-> "X", r |-> TxRank[u[1]] * 10 + u[2]]
 LockSet(t) ==
   {UKey(u) : u \in TX[t].ins \cup OutIds(t)} \cup
-  {[k |-> k, m |-> IF TX[t].writes[k] # NoRd THEN "X" ELSE "S", r |-> 1000 + KeyIdx[k]] :
+  {[k |-> k, m |-> IF TX[t].writes[k] # NoRd THEN "X" ELSE "S", r |-> KvRank + KeyIdx[k]] :
       k \in {k \in Keys : TX[t].reads[k] # NoRd \/ TX[t].writes[k] # NoRd}}
 LK == [t \in DOMAIN TX |-> SetToSortSeq(LockSet(t), LAMBDA x, y : x.r < y.r)]
 LockNames == UNION {{x.k : x \in LockSet(t)} : t \in DOMAIN TX}
